@@ -1,2 +1,6 @@
 pub mod tape;
+pub mod engine;
+pub mod dl;
 pub mod luasyn;
+pub mod model;
+pub mod props;
